@@ -138,7 +138,7 @@ func (e ottoError) messageValue() Value {
 
 func (rt *runtime) typeErrorResult(throw bool) bool {
 	if throw {
-		panic(rt.panicTypeError())
+		panic(rt.panicTypeError("Cannot assign to, define or delete the property"))
 	}
 	return false
 }
